@@ -162,6 +162,18 @@ def run(ctx):
                           f"apply({s}) {'accepted' if got == 'ok' else 'rejected'} but required-earlier "
                           f"rule says {'accept' if exp_ok else 'reject'}",
                           {"input": s, "observed": got})
+    # check_order accepts iff every required step is present at an earlier-or-equal index and
+    # every present optional step is at an earlier-or-equal index (oracle on the implementation)
+    for s_ in sels + extra:
+        if any(p not in steps for p in s_):
+            continue
+        exp_ok = all((r in s_ and s_.index(r) <= i) for i, p in enumerate(s_) for r in req[p]) and \
+            all(s_.index(o) <= i for i, p in enumerate(s_) for o in opt[p] if o in s_)
+        got = impl("check", s_)
+        if (got == "ok") != exp_ok:
+            ctx.violation(f"check-order:{','.join(s_)}",
+                          f"check_order({s_}) {'accepts' if got == 'ok' else 'rejects'} but the order rules "
+                          f"say {'accept' if exp_ok else 'reject'}", {"input": s_, "observed": got})
     ctx.exhaustive = True
     ctx.extra["selections"] = len(sels)
     ctx.extra["closed_selections"] = sum(
